@@ -123,4 +123,24 @@ def PipeSet.moveToStdinStdout (ps : PipeSet) (t : Table) (d : Fd) : Option Table
   | none => none
   | some (t1, rp) => connectStdin t1 rp
 
+/-! ## what the driver runs for a command substitution -/
+
+/-- `pipe()`: the two lowest unused descriptors -/
+def alloc2 (t : Table) : Fd × Fd :=
+  let r := t.minUnused 64 0
+  (r, (t.set r (some .file)).minUnused 64 0)
+
+/-- no descriptor other than the expected ones refers to pipe `p` -/
+def noStray (t : Table) (p : Nat) (rAt wAt : Option Nat) : Bool :=
+  (List.range 40).all fun fd =>
+    (t fd != some (.pr p) || rAt == some fd) && (t fd != some (.pw p) || wAt == some fd)
+
+/-- the child of a command substitution started from table `t` (pipe number `p`):
+    its table and whether it is connected as the property needs -/
+def substRun (t : Table) (p : Nat) : Table × Bool :=
+  let (r, w) := alloc2 t
+  match substChild (t.pipe p r w) r w with
+  | none => (t, false)
+  | some c => (c, c 1 == some (.pw p) && noStray c p none (some 1))
+
 end YashModel.Pipe
